@@ -416,8 +416,8 @@ GenuineLedger.page_error = UI_PROT_INVALID
 class SgxPlatform:
     """PCK hierarchy + quoting enclave + powHSM enclave + its sealed wallet."""
 
-    def __init__(self, rng, auth_len=32, chain_len=3, profile="seeded"):
-        self.h = S.Hierarchy(rng)
+    def __init__(self, rng, auth_len=32, chain_len=3, profile="seeded", window=None):
+        self.h = S.Hierarchy(rng, 0, *(window or (None, None)))
         self.enclave = S.Enclave(rng, self.h, auth_len, chain_len)
         self.wallet = {p: k1.Key.from_rng(rng) for p in L.PATHS}
         self.best_block = rng.nz_bytes(32)
